@@ -186,8 +186,16 @@ pub fn run(cfg: &RunCfg) {
   let n = if cfg.tier == Tier::Quick { 3000 } else { 60000 };
   // registry (stage B2) worlds
   let nj = if cfg.tier == Tier::Quick { 1500 } else { 30000 };
+  // second layer: recorded dependencies as a function of the analysis (descriptor lists through the real parse_module)
+  let nd = if cfg.tier == Tier::Quick { 4000 } else { 80000 };
   let tier = cfg.tier;
-  run_cases(cfg, n + nj, |seed, k| {
-    if k < n { gen_case(seed, k, tier) } else { crate::props::jsr::gen_case(seed, k - n, crate::props::jsr::Flavour::Mixed) }
+  run_cases(cfg, n + nj + nd, |seed, k| {
+    if k < n {
+      gen_case(seed, k, tier)
+    } else if k < n + nj {
+      crate::props::jsr::gen_case(seed, k - n, crate::props::jsr::Flavour::Mixed)
+    } else {
+      crate::props::decl::gen_case(seed, k - n - nj)
+    }
   });
 }
